@@ -159,6 +159,11 @@ class Gen:
 
     def _g_resize_idle(self, sim):
         cands = [pc for pc in sim.pools if sim._pool_is_empty(pc)]
+        if self.prop == "C01" and self.rng.random() < 0.5:
+            # no task in flight, but spawners may be waiting for room (size 0, or everything just finished)
+            wc = [pc for pc in sim.pools if sim._pool_is_empty(pc, True)]
+            if wc:
+                return {"op": "resize_idle", "p": self.rng.choice(wc).idx, "v": self.rng.choice([0, 1, 1, 2, 3, None]), "w": 1}
         if not cands:
             return None
         return {"op": "resize_idle", "p": self.rng.choice(cands).idx, "v": self.rng.choice(self.prof.get("sizes", SIZES))}
